@@ -177,6 +177,25 @@ theorem c03_index_order {cfg : Config} (hwf : WF cfg) {roots : List Nat} {lgs : 
   rw [graphOf_out]
   exact (c10_deps_iff hwf hT j).mpr ⟨U, hU, hne, hd⟩
 
+theorem graphOf_inRange_dir {cfg : Config} (hwf : WFD cfg) : InRange (graphOf cfg) := by
+  intro u v hv
+  rw [graphOf_out] at hv
+  rw [graphOf_size]
+  by_cases hu : u < cfg.length
+  · exact c10_deps_lt_dir hwf (List.getElem?_eq_getElem hu) hv
+  · have : cfg[u]? = none := List.getElem?_eq_none (Nat.le_of_not_lt hu)
+    simp [deps, this] at hv
+
+/-- **C03 (configurations, trailing separators).** `c03_index_order` for configurations whose
+target paths may be written with one trailing separator. -/
+theorem c03_index_order_dir {cfg : Config} (hwf : WFD cfg) {roots : List Nat} {lgs : List (List Nat)}
+    (h : labeledGroups (graphOf cfg) roots = .ok lgs) {i j : Nat} {T U : Target}
+    (hT : cfg[i]? = some T) (hU : cfg[j]? = some U) (hne : j ≠ i) (hd : DependsOnD T U)
+    (hi : i ∈ closure (graphOf cfg) roots) : Before lgs j i := by
+  apply c03_order (graphOf_inRange_dir hwf) h hi
+  rw [graphOf_out]
+  exact (c10_deps_iff_dir hwf hT j).mpr ⟨U, hU, hne, hd⟩
+
 /-- **C03 (configurations, succeeds).** An acyclic well-formed configuration is always grouped,
 for every root set, and the groups partition exactly the dependency closure of the roots. -/
 theorem c03_index_succeeds {cfg : Config} (roots : List Nat)
